@@ -34,7 +34,7 @@ def run(idx: ProgramIndex, rep: Report, tier: str):
     rep.rule("C01-3", "the prediction runs inside the eval CG-tolerance scope")
     rep.rule("C01-4", "mode dispatch is total and ordered; the strategy is built from the training data and only when absent")
     rep.rule("C01-6", "no in-place aliasing hazard on the prediction path: no operand is overwritten through a view by a later operand, no stale reads, the caller's tensors are not written")
-    rep.rule("C01-5", "predictive mean adds the test prior mean once; predictive covariance subtracts the correction from the test x test block")
+    rep.rule("C01-5", "predictive mean adds the test prior mean once (the covariance correction is C01-7)")
     block_typing(idx, rep)
     call_structure(idx, rep)
     consumer_roles(idx, rep)
@@ -294,29 +294,9 @@ def consumer_roles(idx: ProgramIndex, rep: Report):
     rep.add("C01-5", "%s:DefaultPredictionStrategy.exact_predictive_mean" % D.module.name, pm.where, ok and npaths >= 3,
             "on all %d paths the result is +1*(test x train @ mean cache) +1*test prior mean" % npaths if ok else
             "the predictive mean is `%s` on a path, expected +CROSS@CACHE +TEST_MEAN (prior mean added exactly once)" % bad[0], {"paths": npaths})
-    pc = idx.method(D, "exact_predictive_covar", own=True)
-    tt, tr = pc.params[1], pc.params[2]
-    rets = [r.value for r in ast.walk(pc.node) if isinstance(r, ast.Return) and r.value is not None]
-    probs = []
-    nret = 0
-    for r in rets:
-        t = src(r)
-        if t.startswith("ZeroLinearOperator"):
-            continue  # variances skipped
-        nret += 1
-        if tt not in {x.id for x in ast.walk(r) if isinstance(x, ast.Name)}:
-            probs.append("a return of the predictive covariance does not start from the test x test block: `%s`" % t[:70])
-            continue
-        neg = any(m in t for m in ("alpha=-1", ".mul(-1)", " - ", ".neg()", ".sub(", "torch.sub(", "mul_(-1)", "* -1", "-1 *"))
-        if not neg:
-            top = r.args[0] if isinstance(r, ast.Call) and chain(r.func) in ("to_linear_operator",) and r.args else r
-            is_sum = (isinstance(top, ast.BinOp) and isinstance(top.op, ast.Add)) or (isinstance(top, ast.Call) and (chain(top.func) or "") in ("torch.add", "torch.addmm"))
-            if is_sum:
-                probs.append("the correction term is added, not subtracted, in `%s`" % t[:70])
-            else:
-                rep.observe("C01-5", "%s:DefaultPredictionStrategy.exact_predictive_covar[%s]" % (D.module.name, t[:40]), pc.where, "form of the correction not recognised (neither a sum nor an explicit subtraction)")
-    rep.add("C01-5", "%s:DefaultPredictionStrategy.exact_predictive_covar" % D.module.name, pc.where, not probs and nret >= 5,
-            "all %d non-trivial returns are test x test minus a correction built from the test x train block" % nret if not probs else "; ".join(probs[:3]), {"returns": nret})
+    # the sign and shape of the covariance correction are decided by C01-7 (non-commutative normal form on inlined paths); the
+    # earlier textual sign test ("is there a `.mul(-1)` / `alpha=-1` in the return statement") was removed: it mis-read a
+    # correction whose negation is hoisted into a local (false alarm on a behaviour-preserving edit, seed C01c showed it)
 
 
 # ---- C01-6 ---------------------------------------------------------------------------------------------------------
